@@ -25,7 +25,9 @@ type lazyHelper struct {
 	ListIdx         int // -1 if the list is not a parameter
 	Do              *ssa.Call
 	Closure         *ssa.Function
-	Problem         string // non-empty: H is not of the shape above
+	Problem         string    // non-empty: H is not of the shape above
+	Inline          bool      // the discipline is written inside H itself (inlineLazyOf)
+	ListCall        *ssa.Call // inline form: the call in the closure that yields the word list
 }
 
 type lazyInst struct {
@@ -186,19 +188,6 @@ func (a *Analysis) lazyHelperOf(H *ssa.Function) *lazyHelper {
 	if lh.ListIdx >= 0 && flCell == nil {
 		return fail("the closure run by Do in %s does not capture the list parameter", fnKey(H))
 	}
-	isPtr := map[ssa.Value]bool{} // values of the map pointer inside the closure
-	for _, ref := range *fmCell.Referrers() {
-		switch x := ref.(type) {
-		case *ssa.DebugRef:
-		case *ssa.UnOp:
-			if x.Op != token.MUL {
-				return fail("the closure in %s uses the map pointer's variable in %v", fnKey(H), x)
-			}
-			isPtr[x] = true
-		default:
-			return fail("the closure in %s assigns or hands on the map pointer's variable (%T)", fnKey(H), ref)
-		}
-	}
 	isList := map[ssa.Value]bool{}
 	if flCell != nil {
 		for _, ref := range *flCell.Referrers() {
@@ -213,6 +202,34 @@ func (a *Analysis) lazyHelperOf(H *ssa.Function) *lazyHelper {
 			}
 		}
 	}
+	if msg := a.lazyClosureShape(lh.Closure, fmCell, func(v ssa.Value) bool { return isList[v] }, nil); msg != "" {
+		return fail("%s", msg)
+	}
+	if lh.ListIdx < 0 {
+		return fail("%s does not take the word list as a parameter", fnKey(H))
+	}
+	return lh
+}
+
+// lazyClosureShape: clo, the function a guard runs, assigns through the captured map pointer
+// (the cell fmCell holds it) exactly once, a fresh map that is the inverse of a list value
+// accepted by listOK; it calls nothing but len (and what okCall admits).
+func (a *Analysis) lazyClosureShape(clo *ssa.Function, fmCell ssa.Value, listOK func(ssa.Value) bool, okCall func(ssa.CallInstruction) bool) string {
+	name := fnKey(clo)
+	fail := func(format string, args ...any) string { return fmt.Sprintf(format, args...) }
+	isPtr := map[ssa.Value]bool{} // values of the map pointer inside the closure
+	for _, ref := range *fmCell.Referrers() {
+		switch x := ref.(type) {
+		case *ssa.DebugRef:
+		case *ssa.UnOp:
+			if x.Op != token.MUL {
+				return fail("%s uses the map pointer's variable in %v", name, x)
+			}
+			isPtr[x] = true
+		default:
+			return fail("%s assigns or hands on the map pointer's variable (%T)", name, ref)
+		}
+	}
 	var store *ssa.Store
 	for pv := range isPtr {
 		for _, ref := range *pv.Referrers() {
@@ -220,28 +237,30 @@ func (a *Analysis) lazyHelperOf(H *ssa.Function) *lazyHelper {
 			case *ssa.DebugRef:
 			case *ssa.Store:
 				if x.Addr != pv || store != nil {
-					return fail("the closure in %s assigns through the map pointer more than once", fnKey(H))
+					return fail("%s assigns through the map pointer more than once", name)
 				}
 				store = x
 			case *ssa.UnOp:
 				// `(*m)[w] = i` after `*m = make(...)`: checked by fillShape below
 			default:
-				return fail("the closure in %s uses the map pointer in %T", fnKey(H), ref)
+				return fail("%s uses the map pointer in %T", name, ref)
 			}
 		}
 	}
 	if store == nil {
-		return fail("the closure in %s never assigns the map", fnKey(H))
+		return fail("%s never assigns the map", name)
 	}
-	listOK := func(v ssa.Value) bool { return isList[v] }
+	callOK := func(c ssa.CallInstruction) bool {
+		return calleeName(c) == "len" || (okCall != nil && okCall(c))
+	}
 	switch v := store.Val.(type) {
 	case *ssa.MakeMap:
-		for _, c := range callsIn(lh.Closure) {
-			if n := calleeName(c); n != "len" {
-				return fail("the closure in %s calls %s", fnKey(H), n)
+		for _, c := range callsIn(clo) {
+			if !callOK(c) {
+				return fail("%s calls %s", name, calleeName(c))
 			}
 		}
-		listVal, msg := a.fillShape(lh.Closure, func(mv ssa.Value) bool {
+		listVal, msg := a.fillShape(clo, func(mv ssa.Value) bool {
 			if mv == ssa.Value(v) {
 				return true
 			}
@@ -251,38 +270,169 @@ func (a *Analysis) lazyHelperOf(H *ssa.Function) *lazyHelper {
 			return false
 		})
 		if listVal == nil {
-			return fail("%s", msg)
+			return msg
 		}
 		if !listOK(listVal) {
-			return fail("the closure in %s does not range over the list parameter", fnKey(H))
+			return fail("%s does not range over the list it is given", name)
 		}
 	case *ssa.Call:
 		h := v.Call.StaticCallee()
 		if h == nil || !a.isModuleFunc(h) || len(v.Call.Args) != 1 || !listOK(v.Call.Args[0]) {
-			return fail("the closure in %s assigns the result of %s", fnKey(H), calleeName(v))
+			return fail("%s assigns the result of %s", name, calleeName(v))
 		}
 		if msg := a.helperShape(h); msg != "" {
-			return fail("%s", msg)
+			return msg
 		}
-		for _, c := range callsIn(lh.Closure) {
-			if c != ssa.CallInstruction(v) && calleeName(c) != "len" {
-				return fail("the closure in %s also calls %s", fnKey(H), calleeName(c))
+		for _, c := range callsIn(clo) {
+			if c != ssa.CallInstruction(v) && !callOK(c) {
+				return fail("%s also calls %s", name, calleeName(c))
 			}
 		}
-		for _, b := range lh.Closure.Blocks {
+		for _, b := range clo.Blocks {
 			for _, in := range b.Instrs {
 				if _, ok := in.(*ssa.MapUpdate); ok {
-					return fail("the closure in %s modifies the map after the helper built it", fnKey(H))
+					return fail("%s modifies the map after the helper built it", name)
 				}
 			}
 		}
 	default:
-		return fail("the closure in %s assigns something other than a fresh map", fnKey(H))
+		return fail("%s assigns something other than a fresh map", name)
 	}
-	if lh.ListIdx < 0 {
-		return fail("%s does not take the word list as a parameter", fnKey(H))
+	return ""
+}
+
+// inlineLazyOf recognises the same discipline written inside one function, with the guard
+// and the map selected together by a switch:
+//
+//	var once *sync.Once; var m *map[string]T
+//	switch lan { case English: once, m = &englishOnce, &englishMapping … default: return nil }
+//	once.Do(func() { *m = <fresh inverse of lan.list()> })
+//	return *m
+//
+// Each case is an instance (its guard, its map); the list is what the list call yields for
+// the language of that case (resolved by the caller, by evaluation).
+func (a *Analysis) inlineLazyOf(F *ssa.Function) (*lazyHelper, []lazyInst) {
+	if len(F.Blocks) == 0 {
+		return nil, nil
 	}
-	return lh
+	var do *ssa.Call
+	for _, c := range callsIn(F) {
+		if cc, ok := c.(*ssa.Call); ok && calleeName(cc) == "(*sync.Once).Do" && len(cc.Call.Args) == 2 {
+			if _, isPhi := cc.Call.Args[0].(*ssa.Phi); isPhi {
+				if do != nil {
+					return nil, nil
+				}
+				do = cc
+			}
+		}
+	}
+	if do == nil {
+		return nil, nil
+	}
+	lh := &lazyHelper{H: F, OnceIdx: -1, MapIdx: -1, ListIdx: -1, Do: do, Inline: true}
+	fail := func(format string, args ...any) (*lazyHelper, []lazyInst) {
+		lh.Problem = fmt.Sprintf(format, args...)
+		return lh, nil
+	}
+	po := do.Call.Args[0].(*ssa.Phi)
+	for _, ref := range *po.Referrers() {
+		if ref != ssa.Instruction(do) {
+			if _, dbg := ref.(*ssa.DebugRef); !dbg {
+				return fail("%s uses the selected guard other than as the receiver of one Do", fnKey(F))
+			}
+		}
+	}
+	mc, ok := do.Call.Args[1].(*ssa.MakeClosure)
+	if !ok {
+		return fail("%s does not pass a closure to Do", fnKey(F))
+	}
+	lh.Closure, _ = mc.Fn.(*ssa.Function)
+	// the cell holding the selected map pointer: the captured variable all of whose stores are addresses of package-level maps
+	var cm *ssa.Alloc
+	var fmCell ssa.Value
+	for i, b := range mc.Bindings {
+		al, ok := b.(*ssa.Alloc)
+		if !ok || i >= len(lh.Closure.FreeVars) || !isMapPtr(al.Type().Underlying().(*types.Pointer).Elem()) {
+			continue
+		}
+		cm, fmCell = al, lh.Closure.FreeVars[i]
+	}
+	if cm == nil {
+		return fail("the closure run by Do in %s does not capture a variable holding the map pointer", fnKey(F))
+	}
+	stores := map[*ssa.BasicBlock]*ssa.Global{}
+	for _, ref := range *cm.Referrers() {
+		switch x := ref.(type) {
+		case *ssa.DebugRef:
+		case *ssa.MakeClosure:
+			if x != mc {
+				return fail("%s hands the map pointer to another closure", fnKey(F))
+			}
+		case *ssa.Store:
+			g, isG := x.Val.(*ssa.Global)
+			if x.Addr != ssa.Value(cm) {
+				return fail("%s stores the map pointer's variable somewhere", fnKey(F))
+			}
+			if !isG {
+				if c, isC := x.Val.(*ssa.Const); isC && c.Value == nil {
+					continue // the zero value of the declaration
+				}
+				return fail("%s selects a map that is not a package-level variable", fnKey(F))
+			}
+			if stores[x.Block()] != nil {
+				return fail("%s selects two maps on one path", fnKey(F))
+			}
+			stores[x.Block()] = g
+		case *ssa.UnOp:
+			for _, rr := range *x.Referrers() {
+				if _, dbg := rr.(*ssa.DebugRef); dbg {
+					continue
+				}
+				ld, ok := rr.(*ssa.UnOp)
+				if !ok || ld.Op != token.MUL || !instrDominates(do, ld) {
+					return fail("%s uses the selected map pointer other than to read the map after the Do on its guard", fnKey(F))
+				}
+			}
+		default:
+			return fail("%s uses the map pointer's variable in %T", fnKey(F), ref)
+		}
+	}
+	// pair guards and maps: each edge into the φ of guards comes from a block that selected one map
+	var insts []lazyInst
+	pb := po.Block()
+	for i, p := range pb.Preds {
+		g, isG := po.Edges[i].(*ssa.Global)
+		m := stores[p]
+		if !isG || m == nil {
+			return fail("%s does not select a guard and a map together on every path to Do", fnKey(F))
+		}
+		var site ssa.CallInstruction = do
+		insts = append(insts, lazyInst{Helper: lh, Site: site, Guard: g, Map: m})
+	}
+	if len(insts) != len(stores) {
+		return fail("%s selects maps on paths that do not reach the Do", fnKey(F))
+	}
+	// the closure: inverse of the result of one list call
+	var listCall *ssa.Call
+	for _, c := range callsIn(lh.Closure) {
+		if cc, ok := c.(*ssa.Call); ok && calleeName(cc) != "len" {
+			if callee := cc.Call.StaticCallee(); callee != nil && a.isModuleFunc(callee) && listCall == nil {
+				if sl, ok := cc.Type().Underlying().(*types.Slice); ok {
+					if b, ok := sl.Elem().Underlying().(*types.Basic); ok && b.Info()&types.IsString != 0 {
+						listCall = cc
+					}
+				}
+			}
+		}
+	}
+	if listCall == nil {
+		return fail("the closure in %s does not obtain the word list from a function of the module", fnKey(F))
+	}
+	lh.ListCall = listCall
+	if msg := a.lazyClosureShape(lh.Closure, fmCell, func(v ssa.Value) bool { return v == ssa.Value(listCall) }, func(c ssa.CallInstruction) bool { return c == ssa.CallInstruction(listCall) }); msg != "" {
+		return fail("%s", msg)
+	}
+	return lh, insts
 }
 
 // lazyInstances lists the (non-test) call sites of lazy helpers that name package-level
@@ -317,6 +467,21 @@ func (a *Analysis) lazyInstances() map[*ssa.Global][]lazyInst {
 			}
 		}
 	}
+	for _, fn := range a.P.ModuleFuncs(false) {
+		if fn.Parent() != nil {
+			continue
+		}
+		lh, insts := a.inlineLazyOf(fn)
+		if lh == nil {
+			continue
+		}
+		for _, in := range insts {
+			out[in.Map] = append(out[in.Map], in)
+		}
+		if lh.Problem != "" {
+			a.inlineProblem = append(a.inlineProblem, lh)
+		}
+	}
 	a.lazyInst = out
 	return out
 }
@@ -324,6 +489,24 @@ func (a *Analysis) lazyInstances() map[*ssa.Global][]lazyInst {
 // isLazyUse: instruction u passes the address of g to a lazy helper in the guard (wantOnce)
 // or the map position.
 func (a *Analysis) isLazyUse(u ssa.Instruction, g *ssa.Global, wantOnce bool) bool {
+	// inline form: the address is an edge of the φ of guards / is stored into the map pointer's variable
+	for _, insts := range a.lazyInstances() {
+		for _, in := range insts {
+			if !in.Helper.Inline || in.Helper.Problem != "" {
+				continue
+			}
+			if wantOnce && in.Guard == g {
+				if phi, ok := u.(*ssa.Phi); ok && ssa.Value(phi) == in.Helper.Do.Call.Args[0] {
+					return true
+				}
+			}
+			if !wantOnce && in.Map == g {
+				if st, ok := u.(*ssa.Store); ok && st.Val == ssa.Value(g) && st.Parent() == in.Helper.H {
+					return true
+				}
+			}
+		}
+	}
 	c, ok := u.(ssa.CallInstruction)
 	if !ok {
 		return false
